@@ -199,7 +199,7 @@ func genC12(rt *rapid.T) C12Case {
 		return op
 	})
 	minLen := rapid.SampledFrom([]int{1, 1, 8, 20, 35}).Draw(rt, "minlen")
-	c.Ops = rapid.SliceOfN(opGen, minLen, 60).Draw(rt, "ops")
+	c.Ops = rapid.SliceOfN(opGen, minLen, tierN(60, 160)).Draw(rt, "ops")
 	for i := range c.Ops {
 		if c.Ops[i].Kind == "put" {
 			c.Ops[i].Val = i + 1 // unique values: every read is attributable to one write
